@@ -78,7 +78,7 @@ def counter_model(ob, col):
         if name.startswith("_"):
             continue
         try:
-            inputs[name] = cz.sym(sym)
+            inputs[name] = cz.sym(sym, depth=2)
         except Exception as e:
             inputs[name] = {"$error": str(e)}
     return inputs
